@@ -216,7 +216,13 @@ impl<F: Float + SampleUniform + std::fmt::Debug, T: Hash, H: Hasher + Default>
             self.p.swap(j, k);
             //
             // update hsketch and counters
-            let rpj = r + (F::from(j).unwrap());
+            let mut rpj = r + (F::from(j).unwrap());
+            let jp1 = F::from(j + 1).unwrap();
+            if rpj >= jp1 {
+                // r + j rounded up to j + 1 (happens in f32 for j >= 2): keep the value inside level j, where b books it,
+                // otherwise b and a_upper get out of step with the registers and the sketch depends on the stream order
+                rpj = jp1 - jp1 * F::epsilon();
+            }
             if rpj < self.hsketch[self.p[j]] {
                 // update of signature of rank j
                 let j_2 = cmp::min(self.hsketch[self.p[j]].to_usize().unwrap(), m - 1);
